@@ -8,6 +8,8 @@ Step == /\ l <= Len(Rec) /\ l' = l + 1
            /\ r.eq = StructEq(r.a, r.b) /\ r.ne = ~StructEq(r.a, r.b)
            /\ r.clone_eq /\ r.copy_eq /\ r.clone_vs_b = StructEq(r.a, r.b)
            /\ r.back = r.a                      \* the value read back from the real object is the value built
+           /\ r.clone_back = r.a                \* a clone carries every field (read back structurally, not through ==)
+           /\ r.clone_from_back = r.a           \* b.clone_from(&a) turns b into a, whatever b was
 TSpec == TInit /\ [][Step]_l
 Accepted ==
   LET d == TLCGet("stats").diameter IN
